@@ -82,6 +82,8 @@ class ScriptedOptimizer(Optimizer):
             rec["functions"] = np.array(functions, copy=True)
             rec["gradients"] = np.array(gradients, copy=True)
             rec["done"] = True
+            # the algorithm owns its iterate and may update it in place afterwards
+            x += 1.0e3
         log.append({"ev": "end"})
 
 
